@@ -887,6 +887,12 @@ pub fn exc_menu(os: OsK) -> Vec<Rec> {
             for c in codes {
                 for f in flags {
                     v.push((c, f, 3, [0x11, (1u64 << 58) | (5 << 7) | 3, 0x2_0000_0007]));
+                    // EXC_RESOURCE / EXC_GUARD / EXC_CORPSE_NOTIFY refine on the parameters: fewer (or more) than they read
+                    if (11..=13).contains(&c) {
+                        for np in [0u32, 1, 2, 16] {
+                            v.push((c, f, np, [0x11, (1u64 << 58) | (5 << 7) | 3, 0x2_0000_0007]));
+                        }
+                    }
                 }
             }
         }
@@ -1167,7 +1173,7 @@ pub fn gen_reason(_tier: Tier) -> Gen {
 /// C14 process-level space: misc-info flag subsets x Linux status stream x unloaded-module
 /// layouts x module lists x {x86, amd64, arm64} x thread lists (1, 4, 32 threads).
 pub fn gen_proc(_tier: Tier) -> Gen {
-    let radices = vec![5u64, 4, 4, 3, 3, 3];
+    let radices = vec![5u64, 6, 4, 3, 3, 3];
     let len = crate::core::product(&radices);
     let model = move |idx: u64| {
         use md::PlatformId as P;
@@ -1193,7 +1199,10 @@ pub fn gen_proc(_tier: Tier) -> Gen {
             0 => None,
             1 => Some(b"Name:\tx\nPid:\t1234\nPPid:\t1\n".to_vec()),
             2 => Some(b"Name:\tx\nPid:\tabc\n".to_vec()),
-            _ => Some(b"Name:\tx\n".to_vec()),
+            3 => Some(b"Name:\tx\n".to_vec()),
+            // the largest ids a 32-bit unsigned field holds
+            4 => Some(b"Name:\tx\nPid:\t2147483648\n".to_vec()),
+            _ => Some(b"Name:\tx\nPid:\t4294967295\n".to_vec()),
         };
         let um = |b: u64, s: u32, n: &str| ModM { base: b, size: s, name: n.into() };
         m.unloaded = match d[2] {
